@@ -95,6 +95,27 @@ class Res:
 
 _MOD = {}
 
+# Sub-packages of kaira whose module-level / class-level state is reset before every case (and between the forward and the reverse pass of
+# a case): the history of the long-lived worker process is a source of nondeterminism for state shared between instances. Base classes and
+# registries are kept, so that isinstance checks between freshly imported and already imported modules keep working.
+PURGE = ["kaira.models.fec", "kaira.modulations", "kaira.models.binary", "kaira.models.generic", "kaira.channels", "kaira.constraints", "kaira.metrics.signal"]
+KEEP_SUFFIX = (".base", ".registry")
+
+
+def fresh_kaira():
+    """forget the purgeable kaira modules: the next import re-executes them (fresh class objects, fresh class-level caches)"""
+    under = lambda name: any(name == p or name.startswith(p + ".") for p in PURGE)  # noqa: E731
+    try:
+        from kaira.metrics.registry import MetricRegistry
+        from kaira.models.registry import ModelRegistry
+        for reg in (ModelRegistry._models, MetricRegistry._metrics):
+            for k in [k for k, c in reg.items() if under(getattr(c, "__module__", "")) and not getattr(c, "__module__", "").endswith(KEEP_SUFFIX)]:
+                del reg[k]
+    except Exception:  # noqa: BLE001  (registries changed shape: purge what we can)
+        pass
+    for k in [k for k in sys.modules if under(k) and not k.endswith(KEEP_SUFFIX)]:
+        del sys.modules[k]
+
 
 def _module(pid):
     if pid not in _MOD:
@@ -142,6 +163,8 @@ def run_case(args):
     mod = _module(pid)
     torch.manual_seed(0)
     torch.set_grad_enabled(False)
+    if not getattr(mod, "KEEP_MODULES", False):
+        fresh_kaira()
     t0 = time.time()
     signal.alarm(int(horizon))
     try:
